@@ -7,7 +7,7 @@ From QV Require Import Base.Bytes Lex.TokModel Lex.LexSpec Lex.TokInterp Lex.Lex
 From Coq Require Import Lia.
 Local Open Scope N_scope.
 
-Lemma rd_read_at_written_stream_lemma : forall d e resolve id i dd data,
+Lemma rd_read_at_written_stream_step : forall d e resolve id i dd data,
   rde_file e = WOUT d -> bytes_ok (WOUT d) ->
   doc_closed d -> In id (w_ids d) -> find_obj (d_objects d) id = Some i -> i_stream i = Some data -> i_val i = ODict dd ->
   (Z.of_N (doc_ren d id) <= 2147483647)%Z ->
@@ -66,7 +66,7 @@ Proof.
   destruct Hbd as [Hbd Hbt].
   assert (Hth : match tail with c :: _ => c_isspace c = false | [] => False end).
   { unfold tail. apply rw_tail_head. reflexivity. }
-  destruct (rd_read_at_emitted_stream_lemma e resolve objs (rw_ren d) (doc_ren d id) dd data tail off Hat Hoff0
+  destruct (rd_read_at_emitted_stream_step e resolve objs (rw_ren d) (doc_ren d id) dd data tail off Hat Hoff0
               (written_ren_pos d id Hc Hin) Hmax (rw_ren_pos d) W ND Hi Hr Ho Hl Hbd Hbt Hth) as (o' & dd' & spos & H1 & H2 & H3 & H4).
   exists o', dd', spos. repeat split; assumption.
 Qed.
